@@ -767,3 +767,85 @@ fire("c14-cse-set-not-updated", ["C14"], CF,
 silent("c14-silent-product-force-more", ["C14"], CF,
        "                    force_parens_around=(Remainder,)),",
        "                    force_parens_around=(Remainder, Remainder)),")
+
+# ---------------------------------------------------------------------------
+# C13
+# ---------------------------------------------------------------------------
+CO = "pymbolic/compiler.py"
+
+fire("c13-revert-right-shift", ["C13"], IA,
+     "        return self._map_multi_children_op((expr.shiftee,\n"
+     "                                            expr.shift),\n"
+     "                                           ast.RShift())",
+     "        return self._map_multi_children_op((expr.numerator,\n"
+     "                                            expr.denominator),\n"
+     "                                           ast.RShift())",
+     "X1/PymbolicToASTMapper/map_right_shift")
+fire("c13-revert-sort-key", ["C13"], CO,
+     "used_variables.sort(key=lambda var: var.name)", "used_variables.sort()",
+     "P/compile/sorted-by-name")
+fire("c13-revert-composite-leaves", ["C13"], IA,
+     "dep_mapper = CachedDependencyMapper(composite_leaves=False)",
+     "dep_mapper = CachedDependencyMapper(composite_leaves=True)",
+     "T/to_function/parameters-are-variables")
+fire("c13-revert-negative-constant", ["C13"], CO,
+     "            return self.parenthesize(result)\n        else:\n            return result\n\n    def map_polynomial",
+     "            return result\n        else:\n            return result\n\n    def map_polynomial",
+     "T/py-source/")
+fire("c13-exporter-floordiv-as-div", ["C13"], IA,
+     "                                            expr.denominator),\n"
+     "                                           ast.FloorDiv())",
+     "                                            expr.denominator),\n"
+     "                                           ast.Div())",
+     "E/exporter/FloorDiv")
+fire("c13-exporter-power-swapped", ["C13"], IA,
+     "        return self._map_multi_children_op((expr.base,\n"
+     "                                            expr.exponent),",
+     "        return self._map_multi_children_op((expr.exponent,\n"
+     "                                            expr.base),",
+     "E/exporter/Power")
+fire("c13-exporter-fold-reversed", ["C13"], IA,
+     "            result = ast.BinOp(child, op_type, result)",
+     "            result = ast.BinOp(result, op_type, child)",
+     "E/exporter/_map_multi_children_op/order")
+fire("c13-exporter-xor-as-or", ["C13"], IA,
+     "        return self._map_multi_children_op(expr.children,\n"
+     "                                           ast.BitXor())",
+     "        return self._map_multi_children_op(expr.children,\n"
+     "                                           ast.BitOr())",
+     "E/exporter/BitwiseXor")
+fire("c13-exporter-if-swapped", ["C13"], IA,
+     "                         body=self.rec(expr.then),\n"
+     "                         orelse=self.rec(expr.else_))",
+     "                         body=self.rec(expr.else_),\n"
+     "                         orelse=self.rec(expr.then))",
+     "E/exporter/If")
+fire("c13-exporter-kwargs-dropped", ["C13"], IA,
+     "            keywords=[\n                ast.keyword(\n                    arg=kw,\n"
+     "                    value=self.rec(param))\n"
+     "                for kw, param in sorted(expr.kw_parameters.items())])",
+     "            keywords=[])",
+     "E/exporter/CallWithKwargs")
+fire("c13-compile-listed-last", ["C13"], CO,
+     "        all_variables = self._Variables + used_variables",
+     "        all_variables = used_variables + self._Variables",
+     "P/compile/listed-variables-first")
+fire("c13-compile-composite-leaves", ["C13"], CO,
+     "                composite_leaves=False)(self._Expression)",
+     "                composite_leaves=True)(self._Expression)",
+     "T/compile/free-variables-are-variables")
+fire("c13-compile-constants-str", ["C13"], CO,
+     "        result = repr(expr)\n", "        result = str(expr)\n",
+     "P/compile/constants-by-repr")
+fire("c13-pickle-state-swapped", ["C13"], CO,
+     "        return self._Expression, self._Variables",
+     "        return self._Variables, self._Expression",
+     "S/compile/pickle-state")
+fire("c13-logical-not-exported-as-invert", ["C13"], IA,
+     "        return ast.UnaryOp(ast.Not(), self.rec(expr.child))",
+     "        return ast.UnaryOp(ast.Invert(), self.rec(expr.child))",
+     "E/exporter/LogicalNot")
+silent("c13-silent-sorted-form", ["C13"], CO,
+       "        used_variables = list(used_variables)\n"
+       "        used_variables.sort(key=lambda var: var.name)",
+       "        used_variables = sorted(used_variables, key=lambda v: v.name)")
